@@ -267,8 +267,14 @@ func CompactJSON(input, output []byte) []byte {
 			continue
 		}
 		if c == '-' && input[i] == '0' {
-			// Negative 0 is changed to '0', skip the '-'.
-			continue
+			// Negative 0 is changed to '0', skip the '-'. Only the integer
+			// literal -0 is rewritten: the '-' of an exponent (1e-05) or of a
+			// fraction (-0.5) is significant.
+			inExponent := len(output) > 0 && (output[len(output)-1] == 'e' || output[len(output)-1] == 'E')
+			isFraction := i+1 < len(input) && (input[i+1] == '.' || input[i+1] == 'e' || input[i+1] == 'E')
+			if !inExponent && !isFraction {
+				continue
+			}
 		}
 		// Add the non-whitespace character to the output.
 		output = append(output, c)
